@@ -48,11 +48,6 @@ Theorem C40_time2_neg59_refuted :
 Proof. exact time2_neg59_refuted. Qed.
 Print Assumptions C40_time2_neg59_refuted.
 
-Theorem C40_decimal_pp_refuted :
-  exists prec scale neg ip fp, in_domain (VDecimal prec scale neg ip fp) = true /\ model_enc (VDecimal prec scale neg ip fp) = None.
-Proof. exact decimal_pp_refuted. Qed.
-Print Assumptions C40_decimal_pp_refuted.
-
 Theorem C40_string_roundtrip :
   forall fixed maxlen s, in_domain (VString fixed maxlen s) = true -> decodes_to (VString fixed maxlen s) (enc_string maxlen s) = true.
 Proof. exact string_roundtrip. Qed.
@@ -86,10 +81,10 @@ Theorem C40_bit_meta_len_ok : forall bits, bits <= 64 -> bit_meta_len bits = N.o
 Proof. exact bit_meta_len_ok. Qed.
 Print Assumptions C40_bit_meta_len_ok.
 
-(* full for every DECIMAL(precision, scale) with precision > scale; precision = scale is C40_decimal_pp_refuted *)
+(* full: every DECIMAL(precision, scale), precision = scale included, every value *)
 Theorem C40_decimal_roundtrip :
   forall prec scale neg ip fp,
-    in_domain (VDecimal prec scale neg ip fp) = true -> prec <> scale ->
+    in_domain (VDecimal prec scale neg ip fp) = true ->
     exists b, enc_decimal prec scale neg ip fp = Some b /\ decodes_to (VDecimal prec scale neg ip fp) b = true.
 Proof. exact decimal_roundtrip. Qed.
 Print Assumptions C40_decimal_roundtrip.
@@ -115,6 +110,12 @@ Print Assumptions C40_json_scalar_roundtrip_partial.
 Theorem C40_json_key_len_roundtrip : forall n, n < 65536 -> le_val (cons (n mod 256) (cons ((n / 256) mod 256) nil)) = n.
 Proof. exact json_key_len_roundtrip. Qed.
 Print Assumptions C40_json_key_len_roundtrip.
+
+Theorem C40_row_roundtrip :
+  forall members v z, in_domain (VRow members v z) = true ->
+    decodes_to (VRow members v z) (enc_enum members v ++ enc_int 4 z) = true.
+Proof. exact row_roundtrip. Qed.
+Print Assumptions C40_row_roundtrip.
 
 Theorem C40_oracle_on_model :
   forall v, in_domain v = true -> proved_class v -> oracle v (model_obs v) = true.
